@@ -200,17 +200,19 @@ def observe_load(case, files=False):
             fn = {1: curies.Converter.from_extended_prefix_map, 2: curies.Converter.from_prefix_map, 3: curies.Converter.from_priority_prefix_map,
                   4: curies.Converter.from_reverse_prefix_map, 5: curies.Converter.from_jsonld}[tag]
             os.makedirs(os.path.join(ROOT, "_build", "tmp"), exist_ok=True)
-            fd, path = tempfile.mkstemp(suffix=".json", dir=os.path.join(ROOT, "_build", "tmp"))
+            # one file name per worker process, rewritten for every case: a loader must read what the file holds NOW
+            path = os.path.join(ROOT, "_build", "tmp", f"c13_{os.getpid()}.json")
             try:
-                with os.fdopen(fd, "w") as f:
-                    json.dump(payload, f, ensure_ascii=(len(path) % 2 == 0))
+                with open(path, "w") as f:
+                    json.dump(payload, f, ensure_ascii=(len(json.dumps(payload)) % 2 == 0))
                 want = [qprops.v_record(r) for r in c.records]
                 for arg in (path, Path(path)):
                     c2 = fn(arg, delimiter=d)
                     if [qprops.v_record(r) for r in c2.records] != want or c2.delimiter != c.delimiter:
                         return case, [9, [], []]  # file-vs-object mismatch (runtime-only clause of C13)
             finally:
-                os.unlink(path)
+                if os.path.exists(path):
+                    os.unlink(path)
     return case, [0, [], qprops.battery(c, strs, pairs)]
 
 
